@@ -64,6 +64,8 @@ def filter_to_abstract(f: t.Any) -> t.Dict[str, t.Any]:
     if tp is s.FilterExtensibleMatch:
         return {"k": "ext", "hasRule": f.rule is not None, "rule": B(f.rule), "hasAttr": f.attribute is not None,
                 "attr": B(f.attribute), "v": B(f.value), "dn": bool(f.dn_attributes)}
+    if getattr(tp, "_verif_other", False):
+        return {"k": "other", "n": int(f.filter_id), "val": B(f.val)}
     return {"k": "opaque", **opaque(f)}
 
 
@@ -97,6 +99,8 @@ def auth_to_abstract(a: t.Any) -> t.Dict[str, t.Any]:
         return {"k": "simple", "password": B(a.password)}
     if type(a) is s.SaslCredential:
         return {"k": "sasl", "mech": B(a.mechanism), "hasCreds": a.credentials is not None, "creds": B(a.credentials)}
+    if getattr(type(a), "_verif_other", False):
+        return {"k": "other", "n": int(a.auth_id), "val": B(a.val)}
     return {"k": "opaque", **opaque(a)}
 
 
@@ -240,3 +244,57 @@ def kind_of(m: t.Any) -> str:
     if tp is s.SearchResultDone:
         return "done"
     return "other"
+
+
+# ------------------------------------------------------------------------------------------------------------------
+# application-registered alternatives of the extensible CHOICEs (AuthenticationChoice, Filter): one class per tag number,
+# written the way the library's documentation and tests write them; the tag numbers sit on the boundaries of the
+# identifier-octet forms (30/31: low/high form, 127/128 and 16383/16384: one/two/three 7-bit groups)
+OTHER_IDS = (10, 30, 31, 127, 128, 200, 255, 1024, 16383, 16384, 65535, 2097151)
+_OTHER: t.Dict[t.Tuple[str, int, int], t.Any] = {}
+
+
+def other_class(kind: str, n: int) -> t.Any:
+    """kind 'auth' or 'filter'; classes are created per imported library (use_repo may re-import it)."""
+    import dataclasses
+
+    import sansldap as s
+    from sansldap.asn1 import ASN1Tag, TagClass
+
+    key = (kind, n, id(s))
+    if key in _OTHER:
+        return _OTHER[key]
+    tag = ASN1Tag(TagClass.CONTEXT_SPECIFIC, n, False)
+    if kind == "auth":
+        @dataclasses.dataclass(frozen=True)
+        class OtherAuth(s.AuthenticationCredential):
+            auth_id: int = dataclasses.field(init=False, repr=False, default=n)
+            val: bytes = b""
+
+            def pack(self, writer: t.Any, options: t.Any) -> None:
+                writer.write_octet_string(self.val, tag=tag)
+
+            @classmethod
+            def unpack(cls, reader: t.Any, options: t.Any) -> t.Any:
+                return cls(val=bytes(reader.read_octet_string(tag=tag, hint="OtherAuth.val")))
+
+        OtherAuth._verif_other = True  # type: ignore[attr-defined]
+        OtherAuth.__name__ = OtherAuth.__qualname__ = f"OtherAuth{n}"
+        _OTHER[key] = OtherAuth
+    else:
+        @dataclasses.dataclass(frozen=True)
+        class OtherFilter(s.LDAPFilter):
+            filter_id: int = dataclasses.field(init=False, repr=False, default=n)
+            val: bytes = b""
+
+            def pack(self, writer: t.Any, options: t.Any) -> None:
+                writer.write_octet_string(self.val, tag=tag)
+
+            @classmethod
+            def unpack(cls, reader: t.Any, options: t.Any) -> t.Any:
+                return cls(val=bytes(reader.read_octet_string(tag=tag, hint="OtherFilter.val")))
+
+        OtherFilter._verif_other = True  # type: ignore[attr-defined]
+        OtherFilter.__name__ = OtherFilter.__qualname__ = f"OtherFilter{n}"
+        _OTHER[key] = OtherFilter
+    return _OTHER[key]
